@@ -81,9 +81,46 @@ WHAT = {
     "C19-D": "restore_options_for_QT: reverse index loop skips the last table entry",
     "C20-C": "do_blank_lines: nl_max cap skipped for newlines flagged PCF_VAR_DEF",
     "C20-D": "newlines_remove_disallowed: loop now visits a newline that is the list head",
+    "C02-E": "output_text(): the overlap re-indent applies only behind a comment",
+    "C02-F": "newlines_chunk_pos(): pos_* inside macro bodies via IsSamePreproc()",
+    "C03-E": "parse_comment(): hoisted backslash counter no longer reset per line",
+    "C03-F": "parse_next(): 'L' dropped from the literal-prefix dispatch (LR\"...\" no longer a raw string)",
+    "C04-E": "move_case_break(): the newline checks in front of SwapLines dropped",
+    "C04-F": "handle_oc_property_decl(): the catch-all bucket for other words dropped",
+    "C06-E": "newline_case(): scan loop no longer stops at the start of the file",
+    "C06-F": "indent_text(): the 'Unmatched' exit can leave without a diagnostic",
+    "C07-E": "shared marker_is_regex() helper compares every marker with the OFF text",
+    "C07-F": "pos_*=trail backs up with GetPrevNcNnl() into a disabled region",
+    "C08-E": "add_char() keeps a bare CR inside string literals",
+    "C08-F": "parse_cr_string() counts CRLF inside raw strings as LF",
+    "C09-E": "write_utf8() re-implemented with its own bit arithmetic",
+    "C09-F": "cmt_trim_whitespace(): blank test factored into is_blank(char)",
+    "C10-E": "side effect folded into a LOG_FMT argument",
+    "C11-E": "line-ending choice kept when the text has no line ending",
+    "C10-F": "file_content_matches() reads in lockstep and never compares the last partial block",
+    "C11-F": "'skip the file' path leaves the previous file un-cleaned under --if-changed",
+    "C12-E": "write_byte(): one sink per byte (else-if)",
+    "C12-F": "uncrustify_end(): early return when nothing was tokenized",
+    "C13-E": "backup deferred until the file is known to change",
+    "C13-F": "stored md5 compared only over the bytes that were read",
+    "C14-E": "md5 file not rewritten when no new backup was made",
+    "C14-F": "MD5::Final padding boundary `count <= 8`",
+    "C15-E": "print_custom_keywords() writes one line per directive",
+    "C15-F": "split_args() looks for the closing quote first, then unescapes",
+    "C16-E": "Option<token_pos_e>::read accepts `a|b`: fails after a flag was stored",
+    "C16-F": "nl_max consistency check moved behind the 'config file required' check",
+    "C17-E": "nl_max_blank_in_func scan starts from GetBraceLevel(), matches with GetLevel()",
+    "C17-F": "nl_after_namespace uses newline_end_newline() without the end-of-file guard",
+    "C18-E": "return/throw indent frame not popped inside a lambda in parentheses",
+    "C18-F": "try/catch chain closed after the first handler",
+    "C19-E": "rule name corrected in the log, value still taken from the sibling option",
+    "C19-F": "comment-start safety check factored out, LANG_D guard lost",
+    "C20-E": "newlines_cleanup_dup() refuses to fold a directive's newline",
+    "C20-F": "newline_add_after() no longer looks past virtual braces",
 }
 FIRST = {  # result of the first run of each round, before any rule was changed in response to that round
     "C03-D", "C07-C", "C08-C", "C09-C", "C10-D", "C11-C", "C11-D", "C12-C", "C12-D", "C14-C", "C20-C",
+    "C02-E", "C06-E", "C06-F", "C08-E", "C10-E", "C11-E", "C11-F", "C13-E", "C14-E", "C16-F", "C19-E",
     "C06-B", "C07-A", "C09-A", "C09-B", "C10-B", "C11-A", "C11-B", "C12-A", "C12-B", "C14-A", "C16-A", "C19-A", "C20-A",
 }
 AFTER = {  # rule added / tightened after the miss (DESIGN.md section 4)
@@ -108,6 +145,22 @@ AFTER = {  # rule added / tightened after the miss (DESIGN.md section 4)
     "C17-C": "C17/C20.eof-families: <option>=add/force/remove reachability (new obligation); the first-run report came from lost attribution through locals, now resolved",
     "C17-D": "C17.strip: strip-unconditional (tightened: the filter let conditions on the chunk text through)",
     "C19-D": "C11/C19.qt-restore: save-and-restore-walk-the-same-table (new obligation, rule shared with C19)",
+    "C02-F": "C02.move-across-break (new rule)",
+    "C03-E": "C03.continuation-count-per-line (new rule)",
+    "C04-E": "C04.swap-first-on-line (new rule)",
+    "C04-F": "C04.oc-sort-keeps-words (new rule)",
+    "C08-F": "C08.census-classes (new rule)",
+    "C09-E": "C09.one-encoder (new rule)",
+    "C09-F": "C09/C02.no-codepoint-narrowing (new rule on new extractor facts; led to the punctuator-lookup defect, fixed)",
+    "C10-F": "C10.compare-every-byte-read (new rule)",
+    "C12-E": "C12.same-bytes: sinks-independent (new obligation)",
+    "C12-F": "C12.capture-per-file (the C11 reset discipline for cpd.bout as an obligation of C12)",
+    "C13-F": "C13.skip-guard (C14's rule shared with C13)",
+    "C16-E": "C16.no-failure-after-store (new rule)",
+    "C17-E": "C17/C20.scan-level-agreement (new rule)",
+    "C19-F": "C19.force-only-when-fusing (converse of C02.fusion-table, helpers evaluated under the pair bindings)",
+    "C20-E": "C20.runs-not-chunks: merges-every-pair (new obligation)",
+    "C20-F": "C20.runs-not-chunks: looks-past-virtual-braces (new obligation)",
 }
 NOT_DECIDED = {
     "C03-A": "a lexical constant of the language (delimiter length 16)",
@@ -126,6 +179,15 @@ NOT_DECIDED = {
     "C18-C": "alignment chain semantics", "C18-D": "a parent-type list of the language",
     "C19-C": "column arithmetic",
     "C20-D": "which chunk a loop visits first",
+    "C03-F": "which prefix letters start a literal is a table of the language",
+    "C07-E": "which constant a helper compares with (both are valid marker texts)",
+    "C07-F": "which chunk a comment-skipping navigation can land on",
+    "C14-F": "MD5 padding arithmetic",
+    "C15-E": "the writer was restructured so that its formats are no longer literals: the rule loses its anchor (analysis-broken), which is the honest answer",
+    "C15-F": "quote/escape scanning arithmetic",
+    "C17-F": "same mechanism as the recorded finding C20.cap-after-inserts[after-last-cap/newlines_cleanup_braces] (a pass re-run after the last newlines_eat_start_end()); whether a given call can append behind the last chunk depends on option values",
+    "C18-E": "frame-stack semantics (push and pop conditions of one frame kind)",
+    "C18-F": "brace-cleanup stage machine",
 }
 
 
